@@ -126,14 +126,21 @@ def classify(result, text, labels, fns):
         prim = [s for s in spans if s.get("is_primary")]
         ours = [s for s in spans if not s["file_name"].startswith("/") or os.path.basename(s["file_name"]) == os.path.basename(result.get("path", ""))]
         label = None
-        # prefer secondary (clause) spans carrying a label marker
-        for s in sorted(spans, key=lambda s: s.get("is_primary", False)):
+        # the clause that failed is the span Verus tags "failed this postcondition / precondition / invariant";
+        # exit-path spans ("at the end of the function body") cover many lines and must not be searched for labels
+        tagged = [s for s in spans if "failed" in (s.get("label") or "")]
+        for s in tagged:
             for ln in range(s["line_start"], s["line_end"] + 1):
                 if ln in labels:
                     label = labels[ln]
                     break
             if label:
                 break
+        if label is None and not tagged:
+            for s in prim:
+                if s["line_start"] == s["line_end"] and s["line_start"] in labels:
+                    label = labels[s["line_start"]]
+                    break
         pl = prim[0]["line_start"] if prim else 0
         ptext = ""
         if prim:
